@@ -71,8 +71,11 @@ def _ver_methods(ver):
 
 
 # ---- values: module level classes so that pickle finds them by reference
+_PK = {True: 'p', False: 'u', 'noload': 'l'}
+
+
 def _mk_value_class(isval, ver, pick, feat):
-    name = 'Val_%s_%s_%s_%s' % ('v' if isval else 'n', ver, 'p' if pick else 'u',
+    name = 'Val_%s_%s_%s_%s' % ('v' if isval else 'n', ver, _PK[pick],
                                 'f' if feat else 'a')
     base = dawgie.Value if isval else _DuckVer
 
@@ -80,9 +83,21 @@ def _mk_value_class(isval, ver, pick, feat):
         if isval:
             dawgie.Value.__init__(self)
         self._version_ = dawgie.VERSION(1, 0, 0)
-        if not pick:
+        if pick is False:
             self.callback = lambda x: x          # cannot be pickled
+    if pick == 'noload' and isval:
+        # pickle.dumps works, pickle.loads does not: dawgie.Value.__setstate__
+        # builds the object with self.__class__() and this constructor needs
+        # an argument
+        _plain = __init__
+
+        def __init__(self, calibration):         # noqa: F811
+            _plain(self)
     ns = {'__init__': __init__, '__module__': __name__, '__qualname__': name}
+    if pick == 'noload' and not isval:
+        def __setstate__(self, state):
+            raise TypeError('cannot be restored')
+        ns['__setstate__'] = __setstate__
     if feat:
         ns['features'] = lambda self: []
     ns.update(_ver_methods(ver))
@@ -91,16 +106,17 @@ def _mk_value_class(isval, ver, pick, feat):
 
 for _iv in (True, False):
     for _vr in ('ok', 'bad', 'exc'):
-        for _pk in (True, False):
+        for _pk in (True, False, 'noload'):
             for _ft in (True, False):
                 _n, _c = _mk_value_class(_iv, _vr, _pk, _ft)
                 globals()[_n] = _c
 
 
 def mk_value(d):
-    return globals()['Val_%s_%s_%s_%s' % ('v' if d['isval'] else 'n', d['ver'],
-                                          'p' if d['pick'] else 'u',
-                                          'f' if d['feat'] else 'a')]()
+    cls = globals()['Val_%s_%s_%s_%s' % ('v' if d['isval'] else 'n', d['ver'],
+                                         _PK[d['pick']],
+                                         'f' if d['feat'] else 'a')]
+    return cls(1) if d['pick'] == 'noload' and d['isval'] else cls()
 
 
 class _DuckSV(dict, _DuckVer):
@@ -466,6 +482,10 @@ def _obs_alg(a, kind, base, names):
 
 def _exp_alg(a):
     o = dict(a)
+    if a.get('svs') is not None:
+        # the observer sees one fact: pickle.loads(pickle.dumps(v)) works or not
+        o['svs'] = [dict(s, items=[dict(v, pick=v['pick'] is True) for v in s['items']])
+                    if isinstance(s, dict) and 'items' in s else s for s in a['svs']]
     o['deps'] = None if a['deps'] is None else [_exp_ref(r) for r in a['deps']]
     o['fb'] = [_exp_ref(r) for r in a['fb']]
     return o
